@@ -248,6 +248,7 @@ func TestSim(t *testing.T) {
 	}
 	start := time.Now()
 	env := &Env{Tier: *fTier, VerifSeed: *fSeed, Shard: *fShard, NShards: *fNShards, St: newStats(), Thorough: *fTier == "thorough"}
+	gStats = env.St
 	res := &shardResult{Property: prop.ID, Tier: *fTier, Seed: *fSeed, Shard: *fShard, GoMaxProcs: runtime.GOMAXPROCS(0)}
 	if *fMode == "" {
 		for _, p := range expectedProbes[prop.ID] {
